@@ -81,6 +81,8 @@ def ground_axioms(exprs, extra_rounds=1):
         ax.append(e > 0)
         ax.append(e >= 1 + x)
         ax.append(z3.Implies(x == 0, e == 1))
+        ax.append(z3.Implies(x <= 0, e <= 1))
+        ax.append(z3.Implies(x >= 0, e >= 1))
     pairwise_mono("exp")
     for e in args_of("log"):
         x = e.arg(0)
